@@ -69,6 +69,8 @@ class Contract:
         self.opaque_externals = opaque_externals
         self.fresh_result = fresh_result
         self.verify = verify and not assumed
+        if not assumed and not self.may_raise and raises:
+            self.may_raise = sorted(raises)
 
     @property
     def fid(self):
